@@ -761,11 +761,73 @@ func bulkInit(k int) *program {
 	return b.done()
 }
 
+// bulkPassive: the results depend on the CONTENTS of passive data and element segments, whose instances the
+// compiler reads through the module context; the bulk instructions sit in functions other than the first and
+// run after a call.
+func bulkPassive(k int) *program {
+	b := newP("bulk", fmt.Sprintf("bulk-passive-%d", k))
+	b.p.Tag = "passive-segments"
+	b.mem(1, -1)
+	b.m.DataCount = true
+	tA := b.m.Type([]byte{i32}, []byte{i32})
+	g := b.global("calls", i32, true, wb.CI32(0))
+	helper := b.exp("helper", nil, nil, nil, asm().GlobalGet(g).I32Const(1).Op(0x6a).GlobalSet(g)) // function 0
+	f1 := b.fn([]byte{i32}, []byte{i32}, nil, asm().LocalGet(0).I32Const(int32(1000+k)).Op(0x6a))
+	f2 := b.fn([]byte{i32}, []byte{i32}, nil, asm().LocalGet(0).I32Const(int32(2000+k)).Op(0x6a))
+	f3 := b.fn([]byte{i32}, []byte{i32}, nil, asm().LocalGet(0).I32Const(int32(3000+k)).Op(0x6a))
+	b.m.Tables = []wb.Table{{Elem: wb.FuncRef, Lim: wb.Limits{Min: 6}}}
+	b.m.Datas = []wb.Data{
+		{Passive: true, Bytes: []byte("first-passive-segment")},
+		{Passive: true, Bytes: []byte("SECOND_PASSIVE_SEGMENT!")[:20+k%4]},
+	}
+	b.m.Elems = []wb.Elem{
+		{Mode: 1, Funcs: []uint32{f1, f2}},
+		{Mode: 1, Funcs: []uint32{f3, f1, f2}},
+	}
+	sumFunc(b)
+	for seg := uint32(0); seg < 2; seg++ {
+		b.exp(fmt.Sprintf("dinit%d", seg), []byte{i32, i32, i32}, nil, nil, asm().Call(helper).LocalGet(0).LocalGet(1).LocalGet(2).MemoryInit(seg))
+		b.exp(fmt.Sprintf("tinit%d", seg), []byte{i32, i32, i32}, nil, nil, asm().Call(helper).LocalGet(0).LocalGet(1).LocalGet(2).TableInit(seg, 0))
+		b.exp(fmt.Sprintf("ddrop%d", seg), nil, nil, nil, asm().Call(helper).DataDrop(seg))
+		b.exp(fmt.Sprintf("edrop%d", seg), nil, nil, nil, asm().Call(helper).ElemDrop(seg))
+	}
+	b.exp("ci", []byte{i32, i32}, []byte{i32}, nil, asm().Call(helper).LocalGet(1).LocalGet(0).CallIndirect(tA, 0))
+	b.call("dinit0", 0, 0, 21)
+	b.call("dinit1", 32, 0, 20)
+	b.call("sum", 0, 64)
+	b.call("dinit1", 8, 7, 8)
+	b.call("sum", 0, 64)
+	b.call("dinit0", 0, 10, 12) // source range past the segment: trap
+	b.call("tinit0", 0, 0, 2)
+	b.call("tinit1", 2, 0, 3)
+	for i := uint64(0); i < 6; i++ {
+		b.call("ci", i, 1)
+	}
+	b.call("tinit1", 0, 2, 1)
+	b.call("ci", 0, 1)
+	b.call("tinit0", 4, 1, 2) // source range past the segment: trap
+	b.call("ddrop0")
+	b.call("dinit0", 0, 0, 1) // dropped: trap
+	b.call("dinit0", 0, 0, 0)
+	b.call("dinit1", 100, 3, 5)
+	b.call("edrop1")
+	b.call("tinit1", 0, 0, 1) // dropped: trap
+	b.call("tinit0", 5, 1, 1)
+	b.call("ci", 5, 1)
+	b.call("ddrop1")
+	b.call("edrop0")
+	b.call("sum", 96, 16)
+	return b.done()
+}
+
 func famBulk(th bool) []*program {
-	ps := []*program{bulkCopyFill(0), bulkInit(0)}
+	ps := []*program{bulkCopyFill(0), bulkInit(0), bulkPassive(0)}
 	if th {
 		for k := 1; k < 10; k++ {
 			ps = append(ps, bulkCopyFill(k), bulkInit(k))
+		}
+		for k := 1; k < 4; k++ {
+			ps = append(ps, bulkPassive(k))
 		}
 	}
 	return ps
